@@ -1,6 +1,7 @@
 import Fabio.Lemmas.C20Num
 import Fabio.Lemmas.C20Lex
 import Fabio.Lemmas.C20Log
+import Fabio.Lemmas.C20Capture
 /-!
 C20 — access logging is accurate and can never disturb a request: the property theorems.
 
@@ -221,6 +222,23 @@ theorem early_put_loses_a_line :
 example : (Model.C20Log.run Model.C20Log.goodProg Lemmas.C20Log.r1
       [(0,0),(0,0),(1,0),(1,0),(0,0),(0,0),(0,0),(0,0),(0,0),(1,0),(1,0),(1,0),(1,0),(1,0)]
       (Model.C20Log.init [['A'],['B']])).sink = [(['A'], 'A'), (['B'], 'B')] := by decide
+
+/-! ## the status/size capturing responseWriter (`Model/C20Capture.lean`) -/
+
+/-- The wrapper `ServeHTTP` puts around the client connection for the access log is transparent — the
+connection receives every call of the handler, in order (a `Flush` only if it can flush), in particular an
+informational 1xx header AND the final status after it — and what the log gets is the status of the last
+`WriteHeader` and the number of bytes the connection accepted. -/
+theorem capture_transparent (flusher : Bool) (ops : List Model.C20Capture.RWOp) :
+    (Model.C20Capture.captureRun flusher ops).forwarded = Model.C20Capture.visible flusher ops ∧
+    (Model.C20Capture.captureRun flusher ops).size = Model.C20Capture.accepted ops ∧
+    (Model.C20Capture.captureRun flusher ops).code = ((Model.C20Capture.statuses ops).getLast?).getD 0 := by
+  have := Lemmas.C20Capture.foldl_spec flusher ops {}
+  simpa [Model.C20Capture.captureRun] using this
+
+example : (Model.C20Capture.captureRun true [.header 103, .header 404, .write 9 9]).code = 404 ∧
+    (Model.C20Capture.captureRun true [.header 103, .header 404, .write 9 9]).forwarded = [.header 103, .header 404, .write 9 9] := by
+  decide
 
 /-! ## non-vacuity -/
 
